@@ -178,6 +178,9 @@ func Load(o LoadOpts) (*Program, error) {
 			}
 		}
 	}
+	if os.Getenv("KVET_INLINE_DEBUG") != "" {
+		fmt.Fprintf(os.Stderr, "inline: helpers=%v sites=%d fallback=%q\n  left alone: %s\n", p.Inline.Helpers, p.Inline.Sites, p.Inline.Fallback, strings.Join(p.Inline.Skipped, "\n  "))
+	}
 	for _, pk := range pkgs {
 		if !strings.HasPrefix(pk.PkgPath, modPath) {
 			continue
